@@ -408,6 +408,17 @@ def generate(unit, template_path, repo=None, canary=False):
             body, n = rw.r1_attrs(body, add_structural=structural, drop_extra=dropd)
             count('R1', n)
             fi.rewrites['R1'] = n
+        for rid, pat, tpl, cnt, lineno in user_rw:
+            body, n = rw.apply_pattern(body, pat, tpl)
+            if cnt:
+                want = cnt.strip('{}').strip()
+                ok = (n >= 1) if want == '+' else (n >= 0) if want == '*' else (n == int(want))
+            else:
+                ok = n >= 1
+            if not ok:
+                raise AnchorError(f'{fi.name}: rewrite {rid} `{pat}` matched {n} times (template line {lineno})')
+            count(rid, n)
+            fi.rewrites[rid] = fi.rewrites.get(rid, 0) + n
         if 'R2' in rewrites:
             body, n = rw.r2_logging(body)
             count('R2', n)
@@ -434,17 +445,6 @@ def generate(unit, template_path, repo=None, canary=False):
             body, n2 = rw.apply_pattern(body, '# [ repr ( $T:id ) ]', '')
             count('R16', n + n2)
             fi.rewrites['R16'] = n + n2
-        for rid, pat, tpl, cnt, lineno in user_rw:
-            body, n = rw.apply_pattern(body, pat, tpl)
-            if cnt:
-                want = cnt.strip('{}').strip()
-                ok = (n >= 1) if want == '+' else (n >= 0) if want == '*' else (n == int(want))
-            else:
-                ok = n >= 1
-            if not ok:
-                raise AnchorError(f'{fi.name}: rewrite {rid} `{pat}` matched {n} times (template line {lineno})')
-            count(rid, n)
-            fi.rewrites[rid] = fi.rewrites.get(rid, 0) + n
         if fi.is_fn and ghostarg and local_heap:
             body, n = rw.append_ghost_arg(body, local_heap, ghostarg)
             count('R4', n)
